@@ -334,8 +334,9 @@ func scanAliasHaz(c *core.Ctx) []ob {
 								continue
 							}
 							parts := strings.SplitN(k, "|", 2)
-							// the write must not have come from a call that read this very operand
-							if mayEq(parts[0], r.idx) && !strings.Contains(parts[1], "|"+r.root.Name()+"|") {
+							// the write must not have come from a call that read this very operand, and must have happened on
+							// a path that had not yet compared this operand with the receiver (the set after "U:")
+							if mayEq(parts[0], r.idx) && !strings.Contains(strings.SplitN(parts[1], "U:", 2)[0], "|"+r.root.Name()+"|") && strings.Contains(k, "U:") && strings.Contains(strings.SplitN(k, "U:", 2)[1], "|"+r.root.Name()+"|") {
 								hz = append(hz, haz{r.root, wp, e.pos})
 							}
 						}
@@ -349,7 +350,13 @@ func scanAliasHaz(c *core.Ctx) []ob {
 					for _, r := range e.reads {
 						readers += r.root.Name() + "|"
 					}
-					s[w.idx+"|"+readers] = e.pos
+					unaware := "|"
+					for _, p := range ins {
+						if _, u := s["@unaware|"+p.Name()]; u {
+							unaware += p.Name() + "|"
+						}
+					}
+					s[w.idx+"|"+readers+"U:"+unaware] = e.pos
 				}
 			}
 			return s
